@@ -592,7 +592,8 @@ impl Pool for PoolImpl {
     async fn recover_from_standstill(&self) {
         let slot = self.finalized_slot();
         let mut certs = self.get_final_certs(slot);
-        assert!(!certs.is_empty(), "no final cert");
+        // nothing beyond genesis finalized yet: there is no certificate to prove it
+        assert!(!certs.is_empty() || slot.is_genesis(), "no final cert");
         certs.extend(self.get_certs(slot.next()..));
         let votes = self.get_own_votes(slot.next()..);
 
